@@ -71,6 +71,32 @@ def _run_conc(case, values, rng):
     return E, None
 
 
+def _is_noise(case, vals, name, a, b):
+    """Is the failing comparison a == b at `vals` mere floating-point noise?  The local magnitude of the compared
+    quantity is taken from runs with every input moved by +-0.1 %: if |a-b| is below 1e-8 of that magnitude the
+    failure sits on a zero crossing (cancellation) and says nothing about the formula."""
+    try:
+        a, b = complex(a), complex(b)
+    except (TypeError, ValueError):
+        return False
+    if a != a or b != b:
+        return False
+    dev = abs(a - b)
+    scale = 0.0
+    for eps in (1.001, 0.999):
+        pv = {k: (x * eps if isinstance(x, (int, float)) else x) for k, x in vals.items()}
+        CE, skip = _run_conc(case, pv, None)
+        if skip:
+            continue
+        for n2, ok2, a2, b2 in CE.results:
+            if _base(n2) == _base(name):
+                try:
+                    scale = max(scale, abs(complex(a2)), abs(complex(b2)))
+                except (TypeError, ValueError):
+                    pass
+    return scale > 0 and dev <= 1e-8 * scale
+
+
 def _sym_harness(case):
     def h():
         E = SymEnv()
@@ -159,6 +185,8 @@ def run_case(case, tier, seed):
             continue
         conc_runs.append(E)
         for name, ok, a, b in E.failures:
+            if b is not None and _is_noise(case, E.used, name, a, b):
+                continue
             res['violations'].append(dict(case=case.name, claim=name, values=E.used, observed=[a, b],
                                           how='concrete validation point'))
     # ---- 2. symbolic exploration
@@ -285,6 +313,8 @@ def run_case(case, tier, seed):
                         same = [f for f in fails if f[0] == 'no_exception']
                     if not same and cl.name.startswith('domain:'):
                         same = fails[:1]        # sqrt of a negative number shows up as NaN / ValueError in whatever is claimed
+                    if same and cl.kind == 'eq' and same[0][3] is not None and _is_noise(case, vals, same[0][0], same[0][2], same[0][3]):
+                        same = []
                     if same and v.how.startswith('tolerance'):
                         # candidate produced by the relative-tolerance stage: a rounding-level difference looks material
                         # wherever the compared quantity crosses zero.  A wrong formula persists when the inputs move by
